@@ -1065,7 +1065,7 @@ func (vfs *MemFS) Truncate(name string, size int64) error {
 		return &fs.PathError{Op: op, Path: name, Err: vfs.err.IsADirectory}
 	}
 
-	if size < 0 {
+	if size < 0 || size > maxFileSize {
 		return &fs.PathError{Op: op, Path: name, Err: vfs.err.InvalidArgument}
 	}
 
